@@ -646,6 +646,21 @@ account(struct totals * T, const struct outcome * o, FILE * hf)
 	}
 }
 
+/* Wall time spent inside runs that ended in a violation, crash or hang (flood control only; never part of a verdict). */
+static double bad_wall_s;
+
+static void
+run_one_timed(const struct plan * P, uint64_t seed, int fromseed, struct outcome * o)
+{
+	struct timeval a, b;
+
+	gettimeofday(&a, NULL);
+	run_one(P, seed, fromseed, o);
+	gettimeofday(&b, NULL);
+	if (o->kind != 0)
+		bad_wall_s += (double)(b.tv_sec - a.tv_sec) + (double)(b.tv_usec - a.tv_usec) / 1e6;
+}
+
 struct clsrec { char key[140]; int n; };
 
 static int
@@ -701,11 +716,11 @@ batch(uint64_t first, uint64_t count, const char * prefix, int maxreport)
 	errfd = memfd_create("verif-err", 0);
 	gettimeofday(&t0, NULL);
 	for (s = first; s < first + count; s++) {
-		if (T.viol + T.crash + T.hang > 1500)
-			break;		/* flooded: the verdict is clear, stop early */
+		if (T.viol + T.crash + T.hang > 1500 || T.hang >= 6 || bad_wall_s > 100.0)
+			break;		/* flooded (or minutes spent in failing runs): the verdict is clear, stop early */
 		sim_af_step = sim_af_k = -1;
 		sim_af_persist = 0;
-		run_one(NULL, s, 1, &o);
+		run_one_timed(NULL, s, 1, &o);
 		account(&T, &o, hf);
 		if (o.kind != 0) {
 			if (SHOULD_REPORT(&o))
@@ -728,7 +743,7 @@ batch(uint64_t first, uint64_t count, const char * prefix, int maxreport)
 			for (j = 0; j < base.nstep_alloc && j < REC_NSTEP; j++) {
 				int nk = base.nalloc[j];
 
-				for (k = 0; k < nk; k++) {
+				for (k = 0; k < nk && T.hang < 6 && bad_wall_s <= 100.0; k++) {
 					/* all k when few; seeded-independent stride sample when many */
 					if (nk > 64 && k >= 48 && (k % ((nk + 15) / 16)) != 0 && k != nk - 1)
 						continue;
@@ -736,7 +751,7 @@ batch(uint64_t first, uint64_t count, const char * prefix, int maxreport)
 						sim_af_step = j;
 						sim_af_k = k;
 						sim_af_persist = p;
-						run_one(NULL, s, 1, &o);
+						run_one_timed(NULL, s, 1, &o);
 						account(&T, &o, hf);
 						T.af_points++;
 						if (o.kind != 0 && SHOULD_REPORT(&o))
